@@ -191,6 +191,16 @@ Theorem C02_get_paths_reads_only_user_and_cwd :
 Proof. vm_compute. reflexivity. Qed.
 Print Assumptions C02_get_paths_reads_only_user_and_cwd.
 
+(* the transfers (LIST MLSD RETR STOR APPE) are carried out by a worker task when the data connection has arrived;
+   the path it hands to the backend is the real_path the handler resolved when the command was handled -- bound once,
+   by get_paths(connection, rest), before the task exists -- and never one resolved again later (after a CWD or a
+   re-login): the location addressed is base ++ normalize(cwd at the command, argument).  Same closed check as
+   C04_workers_use_authorised_path; the behaviour is proved in Props/C04.v (C04_transfer_target_today). *)
+Theorem C02_transfers_use_the_path_resolved_at_the_command :
+  check_worker_paths Gen.Resolve.worker_paths Gen.Resolve.handler_resolves = true.
+Proof. vm_compute. reflexivity. Qed.
+Print Assumptions C02_transfers_use_the_path_resolved_at_the_command.
+
 (* Server.user() drops a pending rename source (repair of F18, /repo 8b539d4): a closed check on the
    regenerated handler facts -- it computes false on the former shape of user(), whose `del` statements were
    only `user` and `logged` *)
